@@ -475,7 +475,7 @@ def _known_names():
         names.update(re.findall(r"[\"']([A-Za-z_][A-Za-z0-9_]*)[\"']", txt))
     # reference lists name functions as file:function
     for p in glob.glob(os.path.join(here, "rules", "ref", "*.tsv")):
-        if os.path.basename(p) == "local_names.tsv":
+        if os.path.basename(p) in ("local_names.tsv", "static_functions.tsv"):
             continue        # lists every function (names of their locals); naming a function there means nothing
         try:
             txt = open(p).read()
@@ -1218,7 +1218,20 @@ class Program:
 
 RENAME_LOCALS = _os.environ.get("VERIF_RENAME_LOCALS") is not None
 LOCALNAMES = _os.environ.get("VERIF_NO_LOCALNAMES") is None
+RENAME_STATICS = _os.environ.get("VERIF_RENAME_STATICS") is not None
+STATICNAMES = _os.environ.get("VERIF_NO_STATICNAMES") is None
 from . import localnames
+from . import staticnames
+
+
+def _load_unit(path):
+    """facts of one unit with the names of its file-local functions mapped onto the pinned tree's"""
+    d = facts.load_unit(path)
+    if RENAME_STATICS:
+        staticnames.selftest_rename(d)
+    if STATICNAMES:
+        staticnames.apply(d)
+    return d
 
 
 def _rename_locals(raw):
@@ -1262,9 +1275,9 @@ class World:
         _addr_all = set()
         if INLINE_HELPERS:
             for u in self.units:
-                _addr_all.update(facts.load_unit(self.paths[u.uid]).get("addr_taken", []))
+                _addr_all.update(_load_unit(self.paths[u.uid]).get("addr_taken", []))
         for u in self.units:
-            d = facts.load_unit(self.paths[u.uid])
+            d = _load_unit(self.paths[u.uid])
             fl = []
             for raw in d["functions"]:
                 if raw.get("nocfg"):
